@@ -2772,13 +2772,18 @@ class Env(cabc.MutableMapping):
         survives a nested ``swap`` that overrides the same key with
         a value — otherwise the mask would be silently dropped when
         the inner ``swap`` exits.
+
+        Returns ``(was_local, value)``: ``was_local`` tells whether the
+        key had a thread-local override before the swap.  If it had not,
+        the override created by the swap must be dropped again on exit
+        instead of being left behind with the old value.
         """
         if key in local:
-            return local[key]
+            return True, local[key]
         try:
-            return self[key]
+            return False, self[key]
         except KeyError:
-            return NotImplemented
+            return False, NotImplemented
 
     @contextlib.contextmanager
     def swap(self, other=None, overlay=None, **kwargs):
@@ -2815,11 +2820,18 @@ class Env(cabc.MutableMapping):
             if overlay is not None:
                 self._overlay_stack.pop()
             # restore the values
-            for k, v in old.items():
+            for k, (was_local, v) in old.items():
                 if v is NotImplemented:
                     self._del_item(k, thread_local=True)
                 else:
                     self._set_item(k, v, thread_local=True)
+                    if not was_local:
+                        # There was no thread-local override before the
+                        # swap: drop it again so that the global (or
+                        # default) value shows through, instead of leaving
+                        # the key explicitly set in this thread.
+                        self._d.del_locally(k)
+                        self._detyped = None
             if exception is not None:
                 # plain re-raise to preserve __cause__/__context__ chains
                 raise exception
